@@ -277,6 +277,12 @@ def run(ctx, report: Report) -> None:
     if not (ok and ok2):
         r4.violation('purge cache_clear', pmod.where(purge), 'purge() no longer clears the _cached_css_compile cache')
 
+    # ---- R5 (texts compiled by interpretation, bounded) -----------------------------------------------------------------
+    r5 = report.rule('C15-R5', 'what a pattern compiles to under a custom map does not depend on maps compiled earlier (bounded)', floor=3)
+    from .e2etab import custom_isolation_table
+    custom_isolation_table(ctx, r5)
+
+
 
 def cache_key_rule(ctx, r4):
     """compile() hands exactly its four inputs to the lru_cache'd function, the maps wrapped under an is-not-None test
